@@ -382,18 +382,84 @@ theorem idxFrom_spec : ∀ (vals : List Int) (k : Nat) (v : Int), v ∈ vals →
         simp only [e, if_false, a1]
         congr 1; omega
 
+/-! ### The tolerance is attained -/
+
+theorem emit_same_class : ∀ (sol : List (List Int)) (idx : Nat) (reps : List Int) (m : List (Int × Nat)),
+    sol.flatten.Nodup → emit sol idx = some (reps, m) →
+    ∀ cls ∈ sol, ∀ v ∈ cls, ∀ w ∈ cls, lookupIdx m v = lookupIdx m w := by
+  intro sol
+  induction sol with
+  | nil => intro idx reps m _ _ cls hc; simp at hc
+  | cons c0 rest ih =>
+    intro idx reps m hn he cls hc v hv w hw
+    simp only [emit] at he
+    cases hh : c0.head? with
+    | none => simp [hh] at he
+    | some f =>
+      cases hl : c0.getLast? with
+      | none => simp [hh, hl] at he
+      | some l =>
+        simp only [hh, hl] at he
+        cases hk : chk (Int.tdiv (l + f) 2) with
+        | none => simp [hk] at he
+        | some r =>
+          cases hr : emit rest (idx + 1) with
+          | none => simp [hk, hr] at he
+          | some rm =>
+            obtain ⟨reps', m'⟩ := rm
+            simp only [hk, hr, Option.some.injEq, Prod.mk.injEq] at he
+            obtain ⟨_, rfl⟩ := he
+            simp only [List.flatten_cons] at hn
+            have hn' := List.nodup_append.1 hn
+            rcases List.mem_cons.1 hc with rfl | hc
+            · rw [lookup_map_mem _ _ _ _ hv, lookup_map_mem _ _ _ _ hw]
+            · have hvf : v ∈ rest.flatten := List.mem_flatten.2 ⟨cls, hc, hv⟩
+              have hwf : w ∈ rest.flatten := List.mem_flatten.2 ⟨cls, hc, hw⟩
+              have hv0 : v ∉ c0 := fun h => hn'.2.2 v h v hvf rfl
+              have hw0 : w ∉ c0 := fun h => hn'.2.2 w h w hwf rfl
+              rw [lookup_map_not_mem _ _ _ _ hv0, lookup_map_not_mem _ _ _ _ hw0]
+              exact ih (idx + 1) reps' m' hn'.2.1 hr cls hc v hv w hw
+
+theorem tol_attained (vals : List Int) (maxSize : Nat) (sol : List (List Int)) (δ : Int)
+    (hs : vals.Pairwise (· ≤ ·)) (hV : ValidSol vals maxSize sol δ) (hB : Below vals maxSize δ)
+    (hδ : 0 < δ) : ∃ cls ∈ sol, ∃ f t, cls = f :: t ∧ ∃ w ∈ cls, w - f = δ := by
+  apply Classical.byContradiction
+  intro hno
+  obtain ⟨f1, f2, f3⟩ := hV
+  have hcov : Covers (δ - 1) (sol.map (fun c => c.headD 0)) vals := by
+    intro v hv
+    rw [← f1] at hv
+    obtain ⟨cls, hc, hvc⟩ := List.mem_flatten.1 hv
+    obtain ⟨f, t, hcls, hd⟩ := f3 cls hc
+    have hsorted : cls.Pairwise (· ≤ ·) :=
+      List.Pairwise.sublist (List.sublist_flatten_of_mem hc) (by rw [f1]; exact hs)
+    have hfv : f ≤ v := by
+      rw [hcls] at hsorted hvc
+      rcases List.mem_cons.1 hvc with rfl | h
+      · exact Int.le_refl _
+      · exact (List.pairwise_cons.1 hsorted).1 v h
+    have hne : v - f ≠ δ := fun e => hno ⟨cls, hc, f, t, hcls, v, hvc, e⟩
+    have := hd v hvc
+    refine ⟨f, List.mem_map.2 ⟨cls, hc, by rw [hcls]; rfl⟩, hfv, by omega⟩
+  have h1 := greedyCount_le_cover (δ - 1) vals _ hcov
+  have h2 := hB (δ - 1) (by omega) (by omega)
+  simp only [List.length_map] at h1
+  omega
+
 /-! ### Assembly -/
 
-theorem compress_meets_spec (values : List Int) (maxSize : Nat) (hmax : 1 ≤ maxSize)
+theorem compress_meets_spec_strong (values : List Int) (maxSize : Nat) (hmax : 1 ≤ maxSize)
     (hr : ∀ v ∈ values, -2147483648 ≤ v ∧ v ≤ 2147483647) :
-    ∃ table m, compress values maxSize = .ok (table, m) ∧ CompressSpec values maxSize table m := by
+    ∃ table m δ, compress values maxSize = .ok (table, m) ∧ 0 ≤ δ ∧
+      CompressSpecAt values maxSize table m δ ∧ Attained values m δ := by
   have hsl := dedupSort_sorted values
   have hs : (dedupSort values).Pairwise (· ≤ ·) := hsl.imp (fun h => by omega)
   have hb : ∀ v ∈ dedupSort values, -2147483648 ≤ v ∧ v ≤ 2147483647 :=
     fun v hv => hr v ((mem_dedupSort v values).1 hv)
   by_cases hlen : (dedupSort values).length ≤ maxSize
-  · refine ⟨0 :: dedupSort values, idxFrom 1 (dedupSort values), by simp [compress, hlen], ?_⟩
-    refine ⟨0, Int.le_refl 0, ⟨rfl, by simpa using hlen⟩, ?_, ?_⟩
+  · refine ⟨0 :: dedupSort values, idxFrom 1 (dedupSort values), 0, by simp [compress, hlen],
+      Int.le_refl 0, ?_, Or.inl rfl⟩
+    refine ⟨⟨rfl, by simpa using hlen⟩, ?_, ?_⟩
     · intro v hv
       obtain ⟨j, a1, a2⟩ := idxFrom_spec (dedupSort values) 1 v ((mem_dedupSort v values).2 hv)
       refine ⟨1 + j, v, a1, by omega, ?_, by simp [absI]⟩
@@ -423,10 +489,10 @@ theorem compress_meets_spec (values : List Int) (maxSize : Nat) (hmax : 1 ≤ ma
         (fun cls hc => ⟨f3 cls hc,
           List.Pairwise.sublist (List.sublist_flatten_of_mem hc) (by rw [f1]; exact hs),
           fun v hvc => hb v (by rw [← f1]; exact (List.sublist_flatten_of_mem hc).subset hvc)⟩)
-      refine ⟨0 :: reps, m, ?_, ?_⟩
+      refine ⟨0 :: reps, m, δ, ?_, d0, ?_, ?_⟩
       · have hh : (first :: t).head? = some first := rfl
         simp only [compress, hv, hlen, if_false, hh, hl, e1]
-      · refine ⟨δ, d0, ⟨rfl, by simp only [List.length_cons]; omega⟩, ?_, ?_⟩
+      · refine ⟨⟨rfl, by simp only [List.length_cons]; omega⟩, ?_, ?_⟩
         · intro v hvv
           have hvm : v ∈ first :: t := by rw [← hv]; exact (mem_dedupSort v values).2 hvv
           obtain ⟨k, rep, a, b, c⟩ := e3 v (by rw [f1]; exact hvm)
@@ -440,5 +506,27 @@ theorem compress_meets_spec (values : List Int) (maxSize : Nat) (hmax : 1 ≤ ma
           have := greedyCount_le_cover δ' _ C h2
           have := hB δ' h0 h1
           omega
+      · by_cases hδ0 : δ = 0
+        · exact Or.inl hδ0
+        · right
+          obtain ⟨cls, hc, f, t', hcls, w, hw, hwf⟩ := tol_attained (first :: t) maxSize _ δ hs
+            ⟨f1, f2, f3⟩ hB (by omega)
+          have hfm : f ∈ cls := by rw [hcls]; simp
+          have hmemv : ∀ x ∈ cls, x ∈ values := by
+            intro x hx
+            have : x ∈ first :: t := by rw [← f1]; exact List.mem_flatten.2 ⟨cls, hc, hx⟩
+            exact (mem_dedupSort x values).1 (by rw [hv]; exact this)
+          have hnd : (searchLoop (first :: t) first (last - first) maxSize 64 0 (last - first)
+              [first :: t]).flatten.Nodup := by
+            rw [f1, ← hv, List.nodup_iff_pairwise_ne]
+            exact hsl.imp (fun h => by omega)
+          exact ⟨f, hmemv f hfm, w, hmemv w hw, hwf,
+            emit_same_class _ 1 reps m hnd e1 cls hc f hfm w hw⟩
+
+theorem compress_meets_spec (values : List Int) (maxSize : Nat) (hmax : 1 ≤ maxSize)
+    (hr : ∀ v ∈ values, -2147483648 ≤ v ∧ v ≤ 2147483647) :
+    ∃ table m, compress values maxSize = .ok (table, m) ∧ CompressSpec values maxSize table m := by
+  obtain ⟨table, m, δ, h1, h2, h3, _⟩ := compress_meets_spec_strong values maxSize hmax hr
+  exact ⟨table, m, h1, δ, h2, h3⟩
 
 end C17
